@@ -34,7 +34,10 @@ RCW = _rc(fdm)
 FUNCS = {'exp': np.exp, 'sinpoly': lambda t: np.sin(t) + t ** 3, 'rat': lambda t: t * t / (1 + t * t),
          'sumexp': lambda t: np.sum(np.exp(0.5 * t)) + np.prod(np.sin(t))}
 def hx(v):
-    return '%%x' %% struct.unpack('<Q', struct.pack('<d', float(v)))[0]
+    v = float(v)
+    if v != v:
+        return 'nan'          # every NaN is the same value (as harness.common.f2hex)
+    return '%%x' %% struct.unpack('<Q', struct.pack('<d', v))[0]
 INITIAL = {k: np.array(v, copy=True) for k, v in RCW.items()}    # the cache as a fresh interpreter has it
 for line in sys.stdin:
     req = json.loads(line)
